@@ -1,5 +1,6 @@
 import PartituraModel.Wire
 import PartituraModel.Model.Transpose
+import PartituraModel.Model.RomanRoot
 
 open Wire Model
 
@@ -29,6 +30,9 @@ def handle (ts : List String) : String :=
   | "tno" :: rest =>  -- transpose_note: step alter quality number
     orErr <| (run (do let s ← str; let a ← int; let q ← str; let n ← nat; pure (s, a, q, n)) rest).bind
       fun (s, a, q, n) => (transposeNoteNoOctave s a q n).map fun (s, a) => fmtTuple [s, fmtInt a]
+  | "rroot" :: rest =>  -- RomanNumeral.find_root_note (table path): local key, primary degree, secondary degree
+    orErr <| (run (do let lk ← str; let p ← str; let s ← str; pure (lk, p, s)) rest).bind
+      fun (lk, p, s) => (romanRoot lk p s).map fun (st, a) => fmtTuple [st, fmtInt a]
   | _ => "bad-request"
 
 def main : IO Unit := mainLoop handle
